@@ -243,6 +243,11 @@ pub struct DPlan {
 	/// yielding this many items (the panic is caught by the scenario)
 	#[serde(default)]
 	pub iter_panics_after: Option<u8>,
+	/// kill every member lock (`lockable::RawLock::poison`, a safe call; what a
+	/// panicking raw lock operation does to a lock) after the writes: the
+	/// values must still come back, or be dropped, exactly once
+	#[serde(default)]
+	pub kill: bool,
 }
 
 pub const CONT_NAMES: [&str; 14] = ["Vec", "Box<[_]>", "[_;0]", "[_;1]", "[_;2]", "[_;3]", "[_;4]", "(_,)", "(_,_)", "(_,_,_)", "(_;4)", "(_;5)", "(_;6)", "(_;7)"];
@@ -297,7 +302,8 @@ pub fn gen_plan(src: &mut Src<'_>) -> DPlan {
 	};
 	let poison = src.chance(60);
 	let iter_panics_after = if src.chance(90) { Some(src.pick(3) as u8) } else { None };
-	DPlan { leaf, cont, n, kind, writes, end, poison, iter_panics_after }
+	let kill = src.chance(50);
+	DPlan { leaf, cont, n, kind, writes, end, poison, iter_panics_after, kill }
 }
 
 pub struct DOutcome {
@@ -347,6 +353,9 @@ macro_rules! apply_writes {
 			}));
 			let _ = r;
 			$key = ThreadKey::get();
+		}
+		if $plan.kill {
+			happylock::lockable::RawLock::poison(&$coll);
 		}
 	}};
 }
@@ -535,6 +544,9 @@ where
 	}
 	if plan.poison && plan.n > 0 && plan.leaf == 2 {
 		labels.push("c16.poisoned".into());
+	}
+	if plan.kill && plan.n > 0 {
+		labels.push("c16.killed".into());
 	}
 	DOutcome { findings, labels }
 }
@@ -768,22 +780,30 @@ where
 }
 
 pub fn run_plan(plan: &DPlan) -> DOutcome {
-	if matches!(plan.kind, DKind::BoxedFromIter | DKind::OwnedFromIter | DKind::RetryFromIter) {
-		let (mut out, double_free) = crate::quarantine::with_quarantine(|| match plan.leaf {
-			0 => run_vec_scenario::<Mutex<Tracked>>(plan),
-			1 => run_vec_scenario::<RwLock<Tracked>>(plan),
-			_ => run_vec_scenario::<Poisonable<Mutex<Tracked>>>(plan),
-		});
-		if double_free {
-			out.findings.push(finding(format!("double-free|{:?}|{:?}", plan.kind, plan.end), format!("a heap block was freed twice during the scenario (plan {plan:?})")));
-		}
-		return out;
-	}
-	let (mut out, double_free) = crate::quarantine::with_quarantine(|| match plan.leaf {
-		0 => dispatch_leaf_cont!(plan, Mutex<Tracked>),
-		1 => dispatch_leaf_cont!(plan, RwLock<Tracked>),
-		_ => dispatch_leaf_cont!(plan, Poisonable<Mutex<Tracked>>),
+	let vec_path = matches!(plan.kind, DKind::BoxedFromIter | DKind::OwnedFromIter | DKind::RetryFromIter);
+	let (out, double_free) = crate::quarantine::with_quarantine(|| {
+		std::panic::catch_unwind(std::panic::AssertUnwindSafe(|| match (vec_path, plan.leaf) {
+			(true, 0) => run_vec_scenario::<Mutex<Tracked>>(plan),
+			(true, 1) => run_vec_scenario::<RwLock<Tracked>>(plan),
+			(true, _) => run_vec_scenario::<Poisonable<Mutex<Tracked>>>(plan),
+			(false, 0) => dispatch_leaf_cont!(plan, Mutex<Tracked>),
+			(false, 1) => dispatch_leaf_cont!(plan, RwLock<Tracked>),
+			(false, _) => dispatch_leaf_cont!(plan, Poisonable<Mutex<Tracked>>),
+		}))
 	});
+	let mut out = match out {
+		Ok(o) => o,
+		Err(p) => {
+			let msg = p.downcast_ref::<String>().cloned().or_else(|| p.downcast_ref::<&str>().map(|s| s.to_string())).unwrap_or_else(|| "?".into());
+			DOutcome {
+				findings: vec![finding(
+					format!("panicked|{:?}|{:?}|{}", plan.kind, plan.end, crate::interp::first_words(&msg)),
+					format!("a construction / destruction path that takes no lock panicked (\"{msg}\"): the values are not handed back (plan {plan:?})"),
+				)],
+				labels: vec![],
+			}
+		}
+	};
 	if double_free {
 		out.findings.push(finding(
 			format!("double-free|{:?}|{:?}", plan.kind, plan.end),
